@@ -10,7 +10,11 @@ def _sig(c, v):
         if d["listener"] == "https" and mws and not d.get("https_builder_has_UsingMiddleWare"):
             return "https-middleware-not-configurable:1"
         if "logreq" in mws and d["request"]["body"]:
+            if "unsized-body" in c["tags"]:
+                return "unsized-body-after-logrequest:1"
             return "body-after-logrequest:1"
+        if any(st["call"] == "getroutes" for st in (cfg.get("config_call_sequence") or [])):
+            return "served-differs-after-getroutes-in-config-sequence:1"
     return "%s:%s" % (t, v)
 
 
@@ -19,7 +23,7 @@ SPEC = {
         "sigfn": _sig,
         "kind": "coqcases", "module": "CorrC17", "harness": "c17", "corr": "Run/CorrC17.v (model of middleware + route table vs the running server.Server)",
         "timeout": 2400,
-        "rule": "each case = one real exchange (HTTP, HTTPS/TLS with a certificate generated at run time, or one gRPC call / reflection listing) against a started server.Server on loopback, re-run in Coq on the model: the monitor checks routing against the AddRoute call list, the enter/exit order of recording middleware, and equality with the run WITHOUT LogRequest/LogResponse; then the full event log incl. the logger's messages is compared with the model. Generation: the refutation witnesses first; every subset of 6 (method,path) pairs x 12 requests x both listeners; every middleware list over {LogRequest, LogResponse, rec1, rec2} up to a length bound x 4 handler programs (echo, partial reads, headers/status, empty); seeded random configurations (routes, handler programs, scripted middleware, headers, bodies); every subset of 5 gRPC descriptors with re-registration, initializers and reflection. distinct = by (listener, AddRoute calls, middleware list, request) resp. (registrations, called service); non-trivial = the listener has at least one route / the server at least one registration.",
+        "rule": "each case = one real exchange (HTTP, HTTPS/TLS with a certificate generated at run time, or one gRPC call / reflection listing) against a started server.Server on loopback, re-run in Coq on the model: the monitor checks routing against the AddRoute call list, the enter/exit order of recording middleware, and equality with the run WITHOUT LogRequest/LogResponse; then the full event log incl. the logger's messages is compared with the model. Generation: the refutation witnesses first; every subset of 6 (method,path) pairs x 12 requests x both listeners; every middleware list over {LogRequest, LogResponse, rec1, rec2} up to a length bound x 4 handler programs (echo, partial reads, headers/status, empty); a second routing universe (all subsets of GET/PUT /a/b, GET /a/b/c, DELETE /p0/q, OPTIONS /p0 x 20 requests: prefix-sharing paths, HEAD on GET, other methods); configuration call SEQUENCES (every sequence up to a length bound over {AddRoute x3, GetRoutes} containing both, adds through the builder and through the config object returned by Config.GetHttp[s]ServerConfig(), GetMiddleware/TLS getters, middleware set after reads or replacing an earlier one); seeded random configurations (routes over 7 methods x 8 paths, handler programs, scripted middleware, headers, bodies; half of them as call sequences with read accessors); request bodies sent with Content-Length and WITHOUT (chunked HTTP/1.1, unsized HTTP/2), incl. 300 B - 70 kB (thorough 1.1 MB) bodies; every subset of 5 gRPC descriptors with re-registration, initializers, reflection and the gRPC config's getters called between registrations. distinct = by (listener, AddRoute calls, middleware list, request) resp. (registrations, called service); non-trivial = the listener has at least one route / the server at least one registration.",
     }],
     "trusted": [
         "net/http (ServeMux matching of literal 'METHOD /path' patterns, ResponseWriter header-snapshot semantics, TLS, HTTP/1.1 and HTTP/2 framing) and grpc-go dispatch/reflection are modelled by contract; the contract is exercised by this run's cases only",
@@ -33,7 +37,7 @@ SPEC = {
     ],
 }
 META = {
-  "text": "Coq theorems (Props/C17.v, 13, closed under the global context): BundleMiddleware(m1..mn)(h) = m1(m2(..mn(h))) for every list, with the enter/exit trace of recording middleware 1..n,h,n..1; LogRequest (after the fix) and LogResponse are related to the identity by a logical relation over ALL handlers/writers/states, hence for every middleware list, handler program and request the client view (status, sent headers, body) and every observation of handlers and other middleware are the same as without them; for every sequence of AddRoute calls, every map iteration order and every request the ServeMux model serves exactly the registered (method,path) pairs (HEAD on GET) by the last registered handler wrapped in the middleware and rejects the rest with 405/404, for the HTTP and the HTTPS provider; end-to-end composition of both. The model is tied to the code by real exchanges over loopback (HTTP, TLS, HTTP/2, gRPC) on every run. PARTIAL by design: TLS, wire format, ServeMux and gRPC dispatch are library code (contract + harness only).",
+  "text": "Coq theorems (Props/C17.v, 14, closed under the global context): BundleMiddleware(m1..mn)(h) = m1(m2(..mn(h))) for every list, with the enter/exit trace of recording middleware 1..n,h,n..1; LogRequest (after the fix) and LogResponse are related to the identity by a logical relation over ALL handlers/writers/states, hence for every middleware list, handler program and request the client view (status, sent headers, body) and every observation of handlers and other middleware are the same as without them; for every sequence of AddRoute calls, every map iteration order and every request the ServeMux model serves exactly the registered (method,path) pairs (HEAD on GET) by the last registered handler wrapped in the middleware and rejects the rest with 405/404, for the HTTP and the HTTPS provider, also after any configuration call sequence with read accessors in between (getters are inert, the middleware set last counts); end-to-end composition of both. The model is tied to the code by real exchanges over loopback (HTTP, TLS, HTTP/2, gRPC) on every run. PARTIAL by design: TLS, wire format, ServeMux and gRPC dispatch are library code (contract + harness only).",
   "design_ref": "DESIGN.md section 7, C17; section 6 F13",
   "note": "Trusted: Coq kernel + vm_compute; hand-written model; net/http and grpc-go contracts; handler programs cover terminating handlers that use the request/writer interfaces only.",
   "technique": "Coq proof (logical relation for transparency, induction for bundle order, functional-table lemma for the router) over an executable model + differential correspondence (vm_compute) against a live server",
